@@ -407,7 +407,7 @@ class NetworkXPropertyGraph(ABCPropertyGraph, NetworkXMixin):
         # extract a graph
         graph = self.storage.extract_graph(self.graph_id)
         if graph is None:
-            raise PropertyGraphQueryException(graph_id=self.graph_id,
+            raise PropertyGraphQueryException(graph_id=self.graph_id, node_id=node_a,
                                               msg="Unable to find graph")
         # if relationship specified, drop any edge that is not of type rel from graph copy
         if rel is not None:
@@ -434,7 +434,7 @@ class NetworkXPropertyGraph(ABCPropertyGraph, NetworkXMixin):
         # extract a graph
         graph = self.storage.extract_graph(self.graph_id)
         if graph is None:
-            raise PropertyGraphQueryException(graph_id=self.graph_id,
+            raise PropertyGraphQueryException(graph_id=self.graph_id, node_id=node_a,
                                               msg="Unable to find graph")
         real_node_a = self._find_node(node_id=node_a)
         real_node_z = self._find_node(node_id=node_z)
@@ -475,7 +475,7 @@ class NetworkXPropertyGraph(ABCPropertyGraph, NetworkXMixin):
         # extract a graph
         graph = self.storage.extract_graph(self.graph_id)
         if graph is None:
-            raise PropertyGraphQueryException(graph_id=self.graph_id,
+            raise PropertyGraphQueryException(graph_id=self.graph_id, node_id=node_id,
                                               msg="Unable to find graph")
         real_node = self._find_node(node_id=node_id)
         first_neighbors = set(self._get_first_neighbors_via(graph, real_node, rel))
@@ -505,7 +505,7 @@ class NetworkXPropertyGraph(ABCPropertyGraph, NetworkXMixin):
         # extract a graph
         graph = self.storage.extract_graph(self.graph_id)
         if graph is None:
-            raise PropertyGraphQueryException(graph_id=self.graph_id,
+            raise PropertyGraphQueryException(graph_id=self.graph_id, node_id=node_id,
                                               msg="Unable to find graph nodes")
         real_node = self._find_node(node_id=node_id)
         first_neighbors = set(graph.neighbors(real_node))
